@@ -300,6 +300,17 @@ def run(ctx):
                         or not numpy.array_equal(numpy.asarray(r_old[1].get_clim(), dtype='f8'), numpy.asarray(clim, dtype='f8'), equal_nan=True)):
                     ctx.report('property', 'make_patch_collection does not build the patches, values and colour limits that '
                                'make_poly_collection builds', dict(case, through='make_patch_collection'))
+        # a collection of the bare geometry built right after one that carried data: nothing of the earlier one is in it
+        with warnings.catch_warnings():
+            warnings.simplefilter('ignore')
+            r_geo = attempt(lambda: ems.make_poly_collection())
+        ctx.count('geometry-only collection after a data collection')
+        if r_geo[0] != 'ok':
+            ctx.report('property', f'make_poly_collection() failed: {r_geo[1]}', dict(case, through='geometry only'))
+        elif r_geo[1].get_array() is not None or [path_ring(p_) for p_ in r_geo[1].get_paths()] != paths:
+            ctx.report('property', 'a collection of the bare geometry, built after one that carried data, holds values / other outlines: '
+                       f'array {None if r_geo[1].get_array() is None else numpy.asarray(r_geo[1].get_array())[:4].tolist()}',
+                       dict(case, through='geometry only'))
         # user overrides: array= and clim= are passed through untouched
         with warnings.catch_warnings():
             warnings.simplefilter('ignore')
